@@ -43,7 +43,10 @@ RULE = ("exhaustive: all (index,line,column) on a small grid for point validity,
         "validity, all pairs (225) and triples (3375) of valid ranges over points 0..4 for the interval laws, all pairs "
         "(a+b) and triples (merge, concat) over a pool of origins of every kind (NoOrigin, CodeOrigin with "
         "touching/overlapping/nested/disjoint ranges, GeneratedCodeOrigin, XMLFileOrigin, plain Origin, flat "
-        "MultiOrigin) over three sources (two of them == with different texts), 4-tuples over a reduced pool "
+        "MultiOrigin) over three sources (two of them == with different texts), all pairs and triples over a pool of "
+        "fqn-twins (distinct sources with EQUAL fqn: same uri with another source_type, MemoryTextSource vs FileSource "
+        "vs TextSource of one path; told to the model as different keys with the same fqn text) and of "
+        "equal-but-not-identical sources (one key), 4-tuples over a reduced pool "
         "(quick) / the full pool (thorough), all texts x ranges 0..6 for get_raw; plus seeded random cases with "
         "incoherent points (equal index, different line/column: compared on indices only), big integers and more "
         "sources. Non-trivial = operands not all identical / at least two non-empty operands; distinct by request line")
@@ -493,6 +496,30 @@ def make_pool():
     return pool, small
 
 
+def make_twin_pool():
+    """sources that must NOT be confused although their fqn / uri texts coincide (different class, different
+    source_type: the model gets different keys with the same fqn text), and sources that must be treated as one
+    although they are different objects (equal, not identical; same key)"""
+    from pathlib import Path
+    xa = O.Source("x", "typeA")
+    xb = O.Source("x", "typeB")                                   # same uri and fqn as xa, != xa
+    mf = O.MemoryTextSource("<r><x/></r>", source_uri="dir/f.xml")
+    ff = O.FileSource(Path("dir/f.xml"))                          # fqn "dir/f.xml" as mf, other class, != mf
+    tt = O.TextSource("dir/f.xml", "<memory>")                    # same uri AND source_type as mf, other class, != mf
+    e1 = O.MemoryTextSource("same text", source_uri="e")
+    e2 = O.MemoryTextSource("same text", source_uri="e")          # == e1, not the same object, same text
+    srcs = [xa, xb, mf, ff, tt, e1, e2]
+    assert xa != xb and mf != ff and mf != tt and e1 == e2 and e1 is not e2
+    assert xa.fqn == xb.fqn and mf.fqn == ff.fqn == tt.fqn
+    pool = [O.NO_ORIGIN]
+    for s in srcs:
+        pool.append(O.XMLFileOrigin(s, O.XMLPath("/r/x")))
+        pool.append(O.CodeOrigin(s, rg(0, 2)))
+    pool.append(O.CodeOrigin(e2, rg(2, 4)))
+    pool.append(O.GeneratedCodeOrigin(xb))
+    return srcs, pool
+
+
 def random_origin(rng: random.Random, srcs: list, depth=0):
     k = rng.random()
     s = rng.choice(srcs)
@@ -596,8 +623,26 @@ def _raw(rng: random.Random, thorough: bool):
 
 
 def _origins(rng: random.Random, thorough: bool):
+    # ---- fqn-twins (distinct sources, equal fqn) and equal-but-not-identical sources: all pairs and triples
+    twin_srcs, twins = make_twin_pool()
+    ST = Sources()
+    for a in twins:
+        for b in twins:
+            yield origin_case("add", [a, b], ST)
+            yield origin_case("merge", [a, b], ST)
+            yield origin_case("concat", [a, b], ST)
+    ttrip = twins if thorough else twins[:1] + twins[1:5] + twins[5:9:2] + twins[11:]
+    for t in itertools.product(ttrip, repeat=3):
+        yield origin_case("merge", list(t), ST)
+        yield origin_case("concat", list(t), ST)
     pool, small = make_pool()
     S = Sources()
+    # the twins next to the ordinary pool (sources of distinct fqn)
+    for a in small[1:]:
+        for b in twins[1:]:
+            for c in (twins[1], twins[4], small[3]):
+                yield origin_case("merge", [a, b, c], S)
+                yield origin_case("concat", [b, a, c], S)
     for o in pool:
         yield origin_case("merge", [o], S)
         yield origin_case("concat", [o], S)
@@ -618,7 +663,7 @@ def _origins(rng: random.Random, thorough: bool):
     # seeded: more sources (NO_SOURCE, a source without text, a binary one), longer tuples, random ranges
     more = [O.MemoryTextSource("0123456789abcdef", source_uri="m"), O.MemoryTextSource("0123456789ABCDEF", source_uri="m"),
             O.TextSource("c", "text"), O.Source("d", "bin", _raw=b"\x00\x01"), O.NO_SOURCE,
-            O.MemoryTextSource("é中\U0001F600 tail", source_uri="u")]
+            O.MemoryTextSource("é中\U0001F600 tail", source_uri="u")] + twin_srcs
     S2 = Sources()
     for _ in range(1500 if not thorough else 40000):
         n = rng.choice([2, 2, 3, 3, 4, 4, 5, 7])
